@@ -87,6 +87,15 @@ var pxInits = []pxInit{
 	{ID: "neg", Regs: map[risc.RegisterType]int32{risc.T0: -3, risc.T1: 7, risc.T2: -2147483648, risc.T3: -1}, Mem: func(i int) int8 { return int8(-(i%53 + 1)) }},
 	{ID: "zero", Regs: map[risc.RegisterType]int32{}, Mem: func(i int) int8 { return 0 }},
 	{ID: "ra", Regs: map[risc.RegisterType]int32{risc.T0: 5, risc.T1: 5, risc.T2: 9, risc.Ra: 8}, Mem: func(i int) int8 { return int8(i * 7) }},
+	// aligned register values (usable as addresses)
+	{ID: "al", Regs: map[risc.RegisterType]int32{risc.T0: 8, risc.T1: 64, risc.T2: 12}, Mem: func(i int) int8 { return int8(i%59 + 2) }},
+	// stop flags for the loop programs of C08: zero at 1024..1027, non-zero elsewhere
+	{ID: "loop", Regs: map[risc.RegisterType]int32{}, Mem: func(i int) int8 {
+		if i >= 1024 && i < 1028 {
+			return 0
+		}
+		return int8(i%61 + 1)
+	}},
 }
 
 func pxInitByID(id string) *pxInit {
